@@ -138,7 +138,7 @@ func drawAmount(t *rapid.T, label string) uint64 {
 }
 
 var textMutations = []string{"dup-key", "unknown-key", "case-key", "whitespace", "number-spelling", "both-tr-conv", "neither",
-	"two-inputs", "bad-ticker", "lower-ticker", "quoted-twice", "null-value", "escape", "trailing", "reorder", "metadata", "big-number", "byte-flip"}
+	"two-inputs", "empty-other-kind", "bad-ticker", "lower-ticker", "quoted-twice", "null-value", "escape", "trailing", "reorder", "metadata", "big-number", "byte-flip"}
 
 // mutateText applies one grammar-level mutation to a canonical batch text.
 func mutateText(t *rapid.T, s string) (string, string) {
@@ -185,6 +185,14 @@ func mutateText(t *rapid.T, s string) (string, string) {
 		return s[:l[2]] + alt + s[l[3]:], kind
 	case "both-tr-conv":
 		return replaceNth(s, `"transfers":[`, `"conversion":"PEG","transfers":[`), kind
+	case "empty-other-kind":
+		// the other kind's key present but empty / null next to the real one
+		if strings.Contains(s, `"conversion":"`) && rapid.Bool().Draw(t, "onConv") {
+			re := regexp.MustCompile(`"conversion":"([A-Za-z]+)"`)
+			alt := pick([]string{`"conversion":"$1","transfers":[]`, `"conversion":"$1","transfers":null`, `"transfers":[],"conversion":"$1"`, `"transfers":null,"conversion":"$1"`})
+			return re.ReplaceAllString(s, alt), kind
+		}
+		return replaceNth(s, `"transfers":[`, pick([]string{`"conversion":null,"transfers":[`, `"conversion":"","transfers":[`})), kind
 	case "neither":
 		re := regexp.MustCompile(`,"conversion":"[A-Za-z]+"`)
 		return re.ReplaceAllString(s, ""), kind
@@ -412,5 +420,32 @@ func init() {
 			}
 		}
 		return false, "large integer parts are rejected or exact", nil
+	})
+}
+
+// ---- native coverage-guided fuzz targets (thorough tier only; the saved failing input is the reproducible unit)
+
+func FuzzC20Batch(f *testing.F) {
+	a, b := NewActor(0, false).FA(), NewActor(1, false).FA()
+	f.Add(BatchJSON([]Tx{{From: a, Asset: "PEG", Amt: 5, Outs: []Xfer{{To: b, Amt: 5}}}}))
+	f.Add(BatchJSON([]Tx{{From: a, Asset: "pUSD", Amt: 9223372036854775807, Conv: "PEG"}}))
+	f.Add(BatchJSON([]Tx{{From: a, Asset: "pFCT", Amt: 7, Outs: []Xfer{{To: b, Amt: 3}, {To: a, Amt: 4}}}, {From: a, Asset: "PEG", Amt: 1, Conv: "pXBT"}}))
+	f.Add([]byte(`{"version":1,"version":1,"transactions":[]}`))
+	f.Add([]byte(`{"version":1,"transactions":[{"input":{"address":"` + a + `","amount":18446744073709551615,"type":"pUSD"},"conversion":"PEG"}]}`))
+	f.Fuzz(func(t *testing.T, data []byte) {
+		if msg, _ := checkBatchText(data); msg != "" {
+			t.Fatalf("%s", msg)
+		}
+	})
+}
+
+func FuzzC20Amount(f *testing.F) {
+	for _, s := range []string{"1", "0.5", "184467440737.09551615", "184467440738", "92233720368.54775807", ".00000001", "1.123456789", "007.10"} {
+		f.Add(s)
+	}
+	f.Fuzz(func(t *testing.T, s string) {
+		if msg := checkAmount(s); msg != "" {
+			t.Fatalf("%s", msg)
+		}
 	})
 }
